@@ -216,3 +216,29 @@ PROPS["C11"] = Meta(_c11,
     "per-cell definitions split by the group's index range, with both filter flags, position codes; whole code range encode/decode; Hilbert(3-D): same within one level, relations across "
     "levels excluded (known finding F-HILBERT, probed); non-trivial = a case containing a cell of level >= 2 (interior: full lists, boundary: clipped lists)",
     ["the definitional lists of harness/model/refmodel.hpp", "for the Hilbert ordering no independent definition of the curve exists: coordinates<->index is checked as a bijection and lists are compared in coordinates"])
+
+
+def p2p(real):
+    return Bin("t_p2p_%s" % real, ["props/t_p2p.cpp"], {"REALT": real})
+
+
+PROPS["C20"] = Meta(
+    [Job("p2p-double", p2p("double"), quick=(6, 500, 100), thorough=(16, 6000, 100)),
+     Job("p2p-float", p2p("float"), quick=(6, 500, 100), thorough=(16, 6000, 100))],
+    "two generated particle clouds: counts from {0,1,2,3,4,7,8,9,15,16,17,31,32,33} or 0..500, cluster spread 1e-6..1e6, cluster offset from the origin up to 1e6 spreads "
+    "(1e2 in float), separation between the clouds 0 (overlapping) .. 1e3 spreads, charges of either sign, result arrays pre-filled with random values; oracle = long double "
+    "evaluation of the pairwise law per target (potential sum q_j/r, force q_i q_j (x_j-x_i)/r^3), tolerance (32+4n) eps sum|terms| + (8+2n) eps (|prefill|+sum|terms|); "
+    "GenericInner excludes the self term (N=1 leaves the arrays untouched), FullMutual = two one-sided sums and total force zero to rounding; "
+    "non-trivial = both counts >= 2 and not multiples of 4; scalar path only (Inastemp is not in the image)",
+    ["long double (80-bit) reference evaluation", "no coincident particles (the law is singular); such generated cases are skipped and counted"])
+
+
+PROPS["C14"] = Meta(
+    [Job("memblock", Bin("t_memblock", ["props/t_memblock.cpp"]), quick=(6, 600, 100), thorough=(16, 8000, 100))] + single_jobs(200, 3000, dims=(3, 2), qprocs=(4, 3)),
+    "container part: 12 compiled TbfMemoryBlock layouts (1..4 sub-blocks of Scalar/Vector/MultiRVector/MultiVVector, element sizes 1,2,3,8,24,64,100,128,4096), item counts 0..10^4 biased to "
+    "k*64/sizeof +-1, generated operation sequences (reset with new sizes incl. shrinking reuse, move construction, move assignment, byte copy to a 16-byte aligned buffer + raw view); oracle = "
+    "every element reached by every accessor lies in the sub-block range given by the trailer, ranges ascending/disjoint/below the trailer, no two elements overlap, all accessors reach the same "
+    "elements, values written through one are read through the others and through a raw view of a byte copy, fresh blocks are zero, moved-from blocks are empty; "
+    "group part: every cell/particle group of generated trees is byte-copied and viewed through the raw constructors: equal accessors, accessors inside the copied buffers, and "
+    "P2M/M2L-in-group/L2P/P2P operators give the same bytes on the copy; non-trivial = >= 2 sub-blocks with a count that is not a multiple of the alignment / >= 2 leaf groups",
+    COMMON_ASSUME + ["the trailer layout (counts in the last NbBlocks longs, offsets before) is taken as the documented self-description: it is what the raw-memory constructor reads"])
